@@ -89,6 +89,43 @@ Proof.
 Qed.
 Print Assumptions C15_branches.
 
+(* refine_droplet writes into its options dict (tolerance defaults) only after rebinding it to a copy (generated
+   fact refine_copies_options): for every task function, options value, usable process count and schedule the
+   results equal the serial map over the ORIGINAL options and the caller's options are unchanged -- by the serial
+   branch, which hands one object to all tasks, and by the pool, whose tasks work on pickled copies *)
+Theorem C15_refine_options_par_eq_ser :
+  forall (candidate outcome_t options : Type) (is_none : outcome_t -> bool)
+         (task : string -> options -> candidate -> outcome_t * options)
+         (o : options) (np : nproc) (ncpu : nat) (sigma : list nat) (cands : list candidate),
+    usable np ncpu ->
+    rd_parallel_call = rd_serial_call /\
+    refine_droplets_with_options candidate outcome_t options is_none task o np ncpu sigma cands
+    = Done (filter (fun r => negb (is_none r)) (map (fun c => fst (task rd_serial_call o c)) cands), o).
+Proof. exact refine_options_par_eq_ser. Qed.
+Print Assumptions C15_refine_options_par_eq_ser.
+
+Theorem C15_refine_options_independent :
+  forall (candidate outcome_t options : Type) (is_none : outcome_t -> bool)
+         (task : string -> options -> candidate -> outcome_t * options)
+         (o : options) (np1 np2 : nproc) (ncpu1 ncpu2 : nat) (sigma1 sigma2 : list nat) (cands : list candidate),
+    usable np1 ncpu1 -> usable np2 ncpu2 ->
+    refine_droplets_with_options candidate outcome_t options is_none task o np1 ncpu1 sigma1 cands
+    = refine_droplets_with_options candidate outcome_t options is_none task o np2 ncpu2 sigma2 cands.
+Proof. exact refine_options_independent. Qed.
+Print Assumptions C15_refine_options_independent.
+
+(* what that theorem excludes: a task that writes into the object it is handed (o.setdefault(key, x); return
+   o[key]).  Two tasks, options initially unset: serially the second task sees what the first wrote and the
+   caller's dict is modified; with two processes neither happens *)
+Theorem C15_shared_options_refuted :
+  exists (sigma : list nat),
+    mapped_with_options none_nat plain_glue false setdefault_task None (NPInt 1) 4 sigma [1; 2]
+      = Done ([Some 1; Some 1], Some 1) /\
+    mapped_with_options none_nat plain_glue false setdefault_task None (NPInt 2) 4 sigma [1; 2]
+      = Done ([Some 1; Some 2], None).
+Proof. exact shared_options_refuted. Qed.
+Print Assumptions C15_shared_options_refuted.
+
 (* what the theorems exclude: a gatherer that returns results in completion order *)
 Theorem C15_completion_order_refuted :
   exists (f : nat -> nat) (xs : list nat) (sigma : list nat) (w : nat),
